@@ -5,6 +5,7 @@ import collections, json, os, subprocess, sys
 V = os.path.dirname(os.path.dirname(os.path.abspath(__file__)))
 RULES = {   # property -> [(finding id, predicate over [construct, slot, kind, context, detail, input, output], root cause, what fails)]
  'C01': [
+  ('F-38', lambda x: x[0] == 'atom' and x[1].startswith('http'), 'mapping.py: tree-sitter\'s uri_expression has no expression class', 'a URI literal (`http://example.org/a?b=c`, deprecated but valid Nix) makes parse raise ValueError on valid input'),
   ('F-21', lambda x: x[1] == 'b|?', 'function/definition.py: the formals reader does not expect a comment between a formal name and `?`', 'a comment between a formal parameter name and its `?` default makes parse raise ValueError on valid input'),
   ('F-30', lambda x: x[0] == 'attrpath', 'binding.py: a line comment inside an attrpath is re-emitted without the line break that ends it', 'a line comment between an attrpath segment and the following dot swallows the rest of the binding: the output does not parse'),
   ('F-20', lambda x: x[0] in ('lambda_at', 'lambda_at_pre') and x[1] == 'a|}', 'function/definition.py: multi-line formals are given a trailing comma, which the installed grammar rejects; with a comment after the last formal the comma is not adjacent to the brace', 'a comment after the last formal of an @-pattern lambda yields multi-line formals with a trailing comma that the installed tree-sitter grammar rejects'),
